@@ -66,6 +66,8 @@ def gen_cases(tier, seed):
             case["y0_scale"] = float(10.0 ** rng.uniform(-2, 6))
         # history: solve again on the same solver object (second solve from zero multipliers)
         case["resolve"] = bool(rng.random() < 0.3)
+        # a user callback that probes one step ahead with the solver's own single-step entry point while the solve runs
+        case["probe"] = bool(rng.random() < 0.25)
         cases.append(case)
     return cases
 
@@ -75,9 +77,25 @@ def run_case(case):
     e0 = _contract_state["evals"]
     _contract_state["fails"] = []
     p = work.prepare(case, record_sites=False, keep_args=False)
-    out = mon.run_solve(p.rec, p.params, p.x0, p.y0)
+    cb, holder, probes = None, [], [0]
+    if case.get("probe"):
+        import numpy as np
+
+        xs0 = None if p.x0 is None else np.array(p.x0, dtype=float, copy=True)
+        ys0 = None if p.y0 is None else np.array(p.y0, dtype=float, copy=True)
+
+        def cb(iterate, next_iterate, accept, _n=[0]):
+            _n[0] += 1
+            if _n[0] % 4 == 0 and holder:
+                try:
+                    holder[0].perform_iteration(xs0, ys0)
+                    probes[0] += 1
+                except Exception:
+                    pass
+
+    out = mon.run_solve(p.rec, p.params, p.x0, p.y0, user_callback=cb, solver_holder=holder)
     cls = work.outcome_class(out)
-    res = {"viol": [], "ctr": {"solves": 1, "outcome_" + cls.split("@")[0]: 1}}
+    res = {"viol": [], "ctr": {"solves": 1, "outcome_" + cls.split("@")[0]: 1, "probing_calls_during_solves": probes[0]}}
     if out.solver is None or not out.trace.trials:
         return res
     viol, stats = work.check_penalty(p, out)
@@ -124,9 +142,9 @@ def finalize(agg, tier):
     return {
         "rule": "QP/NLP/degenerate/infeasible/unbounded specs x six penalty policies (35% extra weight on DualNorm) x "
                 "controllers x Newton types x scalings x initial penalty 1e-8..10 (15%: 10..1e20) x starting multipliers of norm 0 and "
-                "1e-2..1e6; 30% of the cases solve a second time on the same solver object (zero starting multipliers) and judge both solves; non-trivial = the penalty was raised at least once during the run; distinct by spec seed",
+                "1e-2..1e6; 30% of the cases solve a second time on the same solver object (zero starting multipliers) and judge both solves; in 25% of the cases a user callback calls the solver's own perform_iteration every fourth trial while the solve runs; non-trivial = the penalty was raised at least once during the run; distinct by spec seed",
         "floors": {"trials": 10000, "penalty_increases": 200, "dualnorm_increases": 100, "contract_evaluations": 2000,
-                   "penalty_Constant": 30, "vetoes": 50, "resolves_checked": 50},
+                   "penalty_Constant": 30, "vetoes": 50, "resolves_checked": 50, "probing_calls_during_solves": 500},
         "assumptions": ["the icontract postcondition records (never raises) so that it cannot perturb a solve; zero "
                         "evaluations would make the run inconclusive"],
     }
